@@ -134,3 +134,44 @@ def raise_facts(f: FuncInfo):
     for n, lab, exc in raising_ifs(f):
         out.append((n, exc, sufficient(n.ast, lab == TRUE)))
     return out
+
+
+def guard(f: FuncInfo, pred, exc: Optional[str] = None, dominates: Optional[int] = None, conj: bool = False):
+    """a raising `if` one of whose *sufficient* atoms satisfies pred(atom with single-definition locals inlined, value,
+    raw atom, cfg node).  Orientation of the `if`, `not`, De Morgan forms and the names of temporaries do not matter."""
+    from ..dataflow import expand_locals
+    cfg = cfg_of(f.node)
+    for n, e, fs in raise_facts(f):
+        if exc is not None and not (e or "").endswith(exc):
+            continue
+        if dominates is not None and not cfg.dominates(n.id, dominates):
+            continue
+        fs = list(fs)
+        if conj:
+            # a qualified guard `if <qualifier> and <condition>: raise` - offer the conjuncts too (never when a
+            # conjunct is a constant: `and False` switches the guard off)
+            for a, truth in list(fs):
+                if isinstance(a, ast.BoolOp) and isinstance(a.op, ast.And) and truth and \
+                        not any(isinstance(v, ast.Constant) for v in a.values):
+                    for v in a.values:
+                        fs += sufficient(v, True)
+        for a, truth in fs:
+            try:
+                if pred(expand_locals(f.node, a), truth, a, n):
+                    return n
+            except (AttributeError, IndexError, TypeError):
+                continue
+    return None
+
+
+def rel(atom, truth):
+    """canonical relation of a comparison atom with its truth value folded in: ('>', l, r) | ('>=', l, r) | ('==', l, r) |
+    ('!=', l, r) | ('in', l, r) | ('notin', l, r) | ('is', l, r) | ('isnot', l, r) | None"""
+    if not (isinstance(atom, ast.Compare) and len(atom.ops) == 1):
+        return None
+    l, r, op = atom.left, atom.comparators[0], atom.ops[0]
+    T_ = {ast.Gt: ('>', l, r), ast.Lt: ('>', r, l), ast.GtE: ('>=', l, r), ast.LtE: ('>=', r, l), ast.Eq: ('==', l, r),
+          ast.NotEq: ('!=', l, r), ast.In: ('in', l, r), ast.NotIn: ('notin', l, r), ast.Is: ('is', l, r), ast.IsNot: ('isnot', l, r)}
+    F_ = {ast.Gt: ('>=', r, l), ast.Lt: ('>=', l, r), ast.GtE: ('>', r, l), ast.LtE: ('>', l, r), ast.Eq: ('!=', l, r),
+          ast.NotEq: ('==', l, r), ast.In: ('notin', l, r), ast.NotIn: ('in', l, r), ast.Is: ('isnot', l, r), ast.IsNot: ('is', l, r)}
+    return (T_ if truth else F_).get(type(op))
